@@ -1612,6 +1612,11 @@ def rates_unit():
         if not (isinstance(st, ast.Assign) and isinstance(st.targets[0], ast.Name)):
             raise Unsupported('rates: ' + ast.unparse(st)[:80])
         fm.env[st.targets[0].id] = fm.ev(st.value)
+    # the parts are analysed with the settings of the whole: Jumps.split hands minimal_residence and conversion_method on
+    sp = [ast.unparse(x) for x in _stmts(_find_func(tree, 'Jumps', 'split'))]
+    if sp != ['parts = self.transitions.split(n_parts)',
+              'return [Jumps(part, conversion_method=self.conversion_method, minimal_residence=self.minimal_residence) for part in parts]']:
+        raise Unsupported('Jumps.split: ' + ' | '.join(sp)[:300])
     return fm.env['jump_freq_mean'], fm.env['jump_freq_std']
 
 
